@@ -52,9 +52,244 @@ func inv_buildPoolStmtsSimple(pool []*node, stmts []InjectorStmt, kvcIdx int) {
 		vs.Forall(kvcIdx, func(i int) bool { return stmtOfNode(stmts[i], pool[i]) }))
 }
 
+// ---------------------------------------------------------------------------
+// (*Graph).Build: wiring of values and the wait rule, per dependency edge.
+//
+// What NewGraph hands over (ASSUMED - NewGraph is outside the subset; decl_bounded executes it):
+// a well-formed dependency graph. What the iterator yields (ASSUMED - closure over a queue; decl_bounded
+// executes it): every node once, producers before consumers.
+// ---------------------------------------------------------------------------
+
+// returnCount: number of values a node supplies (an argument node supplies itself).
+func returnCount(n *node) int {
+	if n.providerSpec == nil {
+		return 1
+	}
+	return len(n.providerSpec.Provides)
+}
+
+func nodeWF(n *node) bool {
+	return n != nil && ((n.arg != nil) != (n.providerSpec != nil))
+}
+
+// edgeWF: edge i of node n points at a provider node's argument slot and names one of n's values.
+func edgeWF(g *Graph, n *node, i int) bool {
+	return g.edges[n][i] != nil && nodeWF(g.edges[n][i].node) && g.edges[n][i].node.providerSpec != nil &&
+		0 <= g.edges[n][i].provideArgDst && g.edges[n][i].provideArgDst < len(g.edges[n][i].node.providerArgs) &&
+		0 <= g.edges[n][i].provideArgSrc && g.edges[n][i].provideArgSrc < returnCount(n)
+}
+
+// (quantified over all references, not only allocated ones: the map has no other keys, and the fact then does not
+// depend on what is allocated later)
+func edgesWF(g *Graph) bool {
+	return vs.ForallRef(func(n *node) bool {
+		return vs.Forall(len(g.edges[n]), func(i int) bool { return edgeWF(g, n, i) })
+	})
+}
+
+// slotsDistinct: two different edges never feed the same argument slot - stated with the (ghost) inverse function
+// "which edge feeds slot d of node m", which is what injectivity means and instantiates with a single trigger.
+//
+//kvc:pure slotEdgeNode
+func slotEdgeNode(g *Graph, m *node, d int) *node { return nil }
+
+//kvc:pure slotEdgeIdx
+func slotEdgeIdx(g *Graph, m *node, d int) int { return 0 }
+
+func slotsDistinct(g *Graph) bool {
+	return vs.ForallRef(func(n *node) bool {
+		return vs.Forall(len(g.edges[n]), func(i int) bool {
+			return slotEdgeNode(g, g.edges[n][i].node, g.edges[n][i].provideArgDst) == n &&
+				slotEdgeIdx(g, g.edges[n][i].node, g.edges[n][i].provideArgDst) == i
+		})
+	})
+}
+
+func graphWF(g *Graph) bool {
+	return g != nil && g.edges != nil && vs.Forall(len(g.nodes), func(k int) bool { return nodeWF(g.nodes[k]) }) &&
+		edgesWF(g) && slotsDistinct(g) &&
+		g.returnValue != nil && nodeWF(g.returnValue.node) &&
+		0 <= g.returnValue.returnIndex && g.returnValue.returnIndex < returnCount(g.returnValue.node)
+}
+
+//kvc:pure topoOrder
+func topoOrder(g *Graph) []*node { return nil }
+
+//kvc:pure topoIdx
+func topoIdx(g *Graph, n *node) int { return 0 }
+
+// topoOK: the yield order - every node once, every edge forward.
+func topoOK(g *Graph) bool {
+	return vs.Forall(len(topoOrder(g)), func(j int) bool { return nodeWF(topoOrder(g)[j]) && topoIdx(g, topoOrder(g)[j]) == j }) &&
+		vs.Forall(len(topoOrder(g)), func(j int) bool {
+			return vs.Forall(len(g.edges[topoOrder(g)[j]]), func(i int) bool {
+				return j < topoIdx(g, g.edges[topoOrder(g)[j]][i].node) && topoIdx(g, g.edges[topoOrder(g)[j]][i].node) < len(topoOrder(g)) &&
+					topoOrder(g)[topoIdx(g, g.edges[topoOrder(g)[j]][i].node)] == g.edges[topoOrder(g)[j]][i].node
+			})
+		}) &&
+		len(topoOrder(g)) == len(g.nodes) &&
+		0 <= topoIdx(g, g.returnValue.node) && topoIdx(g, g.returnValue.node) < len(topoOrder(g)) &&
+		topoOrder(g)[topoIdx(g, g.returnValue.node)] == g.returnValue.node
+}
+
+// ASSUMED (closure over a queue and two maps - outside the subset): Kahn's algorithm on a well-formed acyclic
+// graph. The yielded sequence is a function of the graph only, so both passes of Build see the same order.
+//
+//kvc:contract (*Graph).topologicalSortIter
+func contract_Graph_topologicalSortIter(g *Graph) (it func(yield func(*node) bool)) {
+	vs.Requires(g != nil && g.edges != nil && vs.Forall(len(g.nodes), func(k int) bool { return nodeWF(g.nodes[k]) }))
+	vs.Requires(edgesWF(g))
+	vs.Requires(slotsDistinct(g))
+	vs.Requires(g.returnValue != nil && nodeWF(g.returnValue.node) &&
+		0 <= g.returnValue.returnIndex && g.returnValue.returnIndex < returnCount(g.returnValue.node))
+	vs.Ensures("yields_topological_order", vs.SameSlice(vs.YieldSeq(it), topoOrder(g)) && topoOK(g))
+	vs.Allocates()
+	return
+}
+
+// ASSUMED (bipartite matching; only the SIZE matters): at least one thread per non-empty graph.
+//
+//kvc:contract (*Graph).findMaximumAntichainSize
+func contract_Graph_findMaximumAntichainSize(g *Graph) (result uint64) {
+	vs.Ensures("at_least_one_pool", vs.Implies(len(g.nodes) >= 1, result >= 1))
+	vs.Allocates()
+	return
+}
+
+// buildStmts turns pools into threads; only its frame is used here (its own contract: see below).
+//
+//kvc:contract (*Graph).buildStmts
+func contract_Graph_buildStmts(g *Graph, pools [][]*node, nodeProvidedNodes map[*node]map[*node]struct{}, initialProvidedNodes map[*node]struct{}) (stmts []InjectorStmt, err error) {
+	vs.Allocates()
+	return
+}
+
+// Ghost: the thread (pool index) Build chose for a node, -1 for an injector argument.
+var gPoolOf map[*node]int
+
+// samePool: producer n and consumer m run in the same thread.
+func samePool(n, m *node) bool {
+	return gPoolOf[n] != -1 && gPoolOf[m] != -1 && gPoolOf[n] == gPoolOf[m]
+}
+
+// edgeWired: the argument slot fed by edge i of node n holds n's value; when n is a provider running in another
+// thread than the consumer the slot is marked "wait" and the value has a completion channel. (Injector arguments
+// exist before any thread starts; that same-thread edges are NOT marked is an optimisation. Neither is demanded,
+// because no property asks for it.)
+func edgeWired(g *Graph, n *node, i int) bool {
+	return vs.IsAllocated(edgeSlot(g, n, i)) &&
+		edgeSlot(g, n, i).Param == n.returnValues[g.edges[n][i].provideArgSrc] &&
+		vs.Implies(!samePool(n, g.edges[n][i].node) && n.providerSpec != nil,
+			edgeSlot(g, n, i).IsWait && n.returnValues[g.edges[n][i].provideArgSrc].withChannel)
+}
+
+func edgeSlot(g *Graph, n *node, i int) *InjectorCallArgument {
+	return g.edges[n][i].node.providerArgs[g.edges[n][i].provideArgDst]
+}
+
+// valuesReady: node n has one fresh value per supplied group; an argument's value is marked isArg.
+func valuesReady(n *node) bool {
+	return len(n.returnValues) == returnCount(n) &&
+		vs.Forall(len(n.returnValues), func(k int) bool {
+			return vs.IsAllocated(n.returnValues[k]) && n.returnValues[k].isArg == (n.providerSpec == nil)
+		})
+}
+
 //kvc:contract (*Graph).Build
 func contract_Graph_Build(g *Graph, metaData *MetaData, varPool *VarPool) (result *Injector, err error) {
+	vs.Requires(graphWF(g) && metaData != nil && metaData.Imports != nil && importsNonNil(metaData.Imports) && poolInv(varPool))
+	// C02: every argument slot is wired to the value of the node the edge comes from
+	// C01: ... and waits for it exactly when the two run in different threads; then the value has a channel
+	vs.Ensures("every_edge_wired_and_waited_across_threads", vs.Implies(err == nil,
+		vs.Forall(len(topoOrder(g)), func(j int) bool {
+			return vs.Forall(len(g.edges[topoOrder(g)[j]]), func(i int) bool { return edgeWired(g, topoOrder(g)[j], i) })
+		})))
+	vs.Ensures("values_ready", vs.Implies(err == nil, vs.Forall(len(topoOrder(g)), func(j int) bool { return valuesReady(topoOrder(g)[j]) })))
+	vs.Ensures("imports_nonnil", importsNonNil(metaData.Imports))
 	vs.ModifiesAll()
 	vs.Allocates()
 	return
+}
+
+// --- Build: ghost and loop invariants ---------------------------------------------------------------------
+
+//kvc:ghost (*Graph).Build after "nodeToPoolIdx[n] = poolIdx"
+func ghost_Build_poolOf(n *node, poolIdx int) { gPoolOf[n] = poolIdx }
+
+// providedBound: a provided-set holds only injector arguments and nodes yielded before position t.
+func providedBound(g *Graph, m map[*node]struct{}, t int) bool {
+	return m != nil && vs.ForallRef(func(x *node) bool {
+		return vs.Implies(vs.Has(m, x), x.providerSpec == nil || (0 <= topoIdx(g, x) && topoIdx(g, x) < t))
+	})
+}
+
+func buildLocalsOK(injector *Injector, pools [][]*node, poolProvidedNodes []map[*node]struct{}, initialProvidedNodes map[*node]struct{}, nodeProvidedNodes map[*node]map[*node]struct{}, nodeToPoolIdx map[*node]int) bool {
+	return injector != nil && initialProvidedNodes != nil && nodeProvidedNodes != nil && nodeToPoolIdx != nil &&
+		len(pools) == len(poolProvidedNodes) && poolsWellFormed(pools) &&
+		vs.Forall(len(poolProvidedNodes), func(k int) bool { return poolProvidedNodes[k] != nil })
+}
+
+func buildEnvOK(metaData *MetaData, varPool *VarPool) bool {
+	return metaData.Imports != nil && importsNonNil(metaData.Imports) && poolInv(varPool)
+}
+
+//kvc:loop (*Graph).Build "for _, n := range g.nodes"
+func inv_Build_initial(g *Graph, initialProvidedNodes map[*node]struct{}) {
+	vs.Invariant("only_arguments", providedBound(g, initialProvidedNodes, 0))
+}
+
+//kvc:loop (*Graph).Build "for i := range poolProvidedNodes"
+func inv_Build_clone(g *Graph, pools [][]*node, poolProvidedNodes []map[*node]struct{}, initialProvidedNodes map[*node]struct{}, kvcIdx int) {
+	vs.Invariant("len", len(pools) == len(poolProvidedNodes))
+	vs.Invariant("cloned", vs.Forall(kvcIdx, func(k int) bool {
+		return providedBound(g, poolProvidedNodes[k], 0) && !vs.SameMap(poolProvidedNodes[k], initialProvidedNodes)
+	}))
+}
+
+//kvc:loop (*Graph).Build "for n := range g.topologicalSortIter() { slog.Debug"
+func inv_Build_pass1(g *Graph, injector *Injector, pools [][]*node, poolProvidedNodes []map[*node]struct{}, initialProvidedNodes map[*node]struct{},
+	nodeProvidedNodes map[*node]map[*node]struct{}, nodeToPoolIdx map[*node]int, metaData *MetaData, varPool *VarPool, kvcIdx int) {
+	vs.Invariant("locals", buildLocalsOK(injector, pools, poolProvidedNodes, initialProvidedNodes, nodeProvidedNodes, nodeToPoolIdx))
+	vs.Invariant("env", buildEnvOK(metaData, varPool))
+	vs.Invariant("pools_exist", len(topoOrder(g)) == 0 || len(pools) >= 1)
+	vs.Invariant("values", vs.Forall(kvcIdx, func(j int) bool { return valuesReady(topoOrder(g)[j]) }))
+	vs.Invariant("placed", vs.Forall(kvcIdx, func(j int) bool {
+		return vs.Has(nodeToPoolIdx, topoOrder(g)[j]) && nodeToPoolIdx[topoOrder(g)[j]] == gPoolOf[topoOrder(g)[j]]
+	}))
+	vs.Invariant("args_ready", injectorArgsReady(injector))
+	vs.Invariant("initial_only_arguments", providedBound(g, initialProvidedNodes, 0))
+	vs.Invariant("pool_sets_private", vs.Forall(len(poolProvidedNodes), func(k int) bool { return !vs.SameMap(poolProvidedNodes[k], initialProvidedNodes) }))
+	vs.Invariant("pool_sets_bounded", vs.Forall(len(poolProvidedNodes), func(k int) bool { return providedBound(g, poolProvidedNodes[k], kvcIdx) }))
+	vs.Invariant("snapshots_bounded", vs.Forall(kvcIdx, func(j int) bool { return providedBound(g, nodeProvidedNodes[topoOrder(g)[j]], j+1) }))
+	vs.Invariant("snapshots_private", vs.Forall(kvcIdx, func(j int) bool {
+		return vs.IsAllocated(nodeProvidedNodes[topoOrder(g)[j]]) && !vs.SameMap(nodeProvidedNodes[topoOrder(g)[j]], initialProvidedNodes) &&
+			!vs.SameMap(nodeProvidedNodes[topoOrder(g)[j]], nodeToPoolIdx) && !vs.SameMap(nodeProvidedNodes[topoOrder(g)[j]], nodeProvidedNodes) &&
+			vs.Forall(len(poolProvidedNodes), func(k int) bool { return !vs.SameMap(nodeProvidedNodes[topoOrder(g)[j]], poolProvidedNodes[k]) })
+	}))
+}
+
+//kvc:loop (*Graph).Build "for _, types := range n.providerSpec.Provides"
+func inv_Build_provides(injector *Injector, returnValues []*InjectorParam, metaData *MetaData, varPool *VarPool, kvcIdx int) {
+	vs.Invariant("env", injector != nil && buildEnvOK(metaData, varPool))
+	vs.Invariant("fresh_values", len(returnValues) == kvcIdx && vs.Forall(kvcIdx, func(k int) bool {
+		return vs.IsAllocated(returnValues[k]) && !returnValues[k].isArg
+	}))
+}
+
+//kvc:loop (*Graph).Build "for n := range g.topologicalSortIter() { providedNodes := nodeProvidedNodes[n]"
+func inv_Build_pass2(g *Graph, kvcIdx int) {
+	vs.Invariant("slots_keep_their_number", vs.ForallRef(func(m *node) bool { return len(m.providerArgs) == vs.Old(len(m.providerArgs)) }))
+	vs.Invariant("wired", vs.Forall(kvcIdx, func(j int) bool {
+		return vs.Forall(len(g.edges[topoOrder(g)[j]]), func(i int) bool { return edgeWired(g, topoOrder(g)[j], i) })
+	}))
+}
+
+//kvc:loop (*Graph).Build "for _, edge := range g.edges[n]"
+func inv_Build_edges(g *Graph, n *node, kvcIdx int, kvcOuterIdx int) {
+	vs.Invariant("n", 0 <= kvcOuterIdx && kvcOuterIdx < len(topoOrder(g)) && n == topoOrder(g)[kvcOuterIdx])
+	vs.Invariant("slots_keep_their_number", vs.ForallRef(func(m *node) bool { return len(m.providerArgs) == vs.Old(len(m.providerArgs)) }))
+	vs.Invariant("wired_before", vs.Forall(kvcOuterIdx, func(j int) bool {
+		return vs.Forall(len(g.edges[topoOrder(g)[j]]), func(i int) bool { return edgeWired(g, topoOrder(g)[j], i) })
+	}))
+	vs.Invariant("wired_here", vs.Forall(kvcIdx, func(i int) bool { return edgeWired(g, n, i) }))
 }
